@@ -22,9 +22,8 @@ From Run Require Import GenFermi.
 (** the regenerated table is the one the proofs are about *)
 Lemma gen_jw_tab_ok kind n i : (i < n)%nat -> gen_jw_tab kind n i = jw_tab kind n i.
 Proof.
-  intros Hi. unfold gen_jw_tab, jw_tab, gen_jw_za, gen_jw_zb, gen_jw_x, jw_za, jw_zb, jw_x. cbv zeta.
-  destruct kind; rewrite <- ?app_assoc;
-    repeat (f_equal; try reflexivity; try lia).
+  intros Hi. unfold gen_jw_tab, jw_tab, gen_jw_za, gen_jw_zb, gen_jw_x, jw_za, jw_zb, jw_x.
+  destruct kind; tab_bridge.
 Qed.
 
 Section Weight.
